@@ -68,6 +68,23 @@ def run(chk, tier):
             n_upd += 1
             if not re.fullmatch(r'field:0\(call:\w+::next\(.*\)\)', vshow(c[7][1])):
                 ok8, why8 = False, 'update_for_probe receives %s' % vshow(c[7][1])[:80]
+    if ok8 and not n_upd:
+        # the same loop written as `round.probes.iter().for_each(|p| self.update_for_probe(p))` (std contract: the closure is applied to every
+        # element once, in order): the iterator is the whole slice, and the closure hands its argument to update_for_probe once on every trace
+        fe = [c for o in outs8 for c in user_calls(o) if re.search(r'::for_each$', c[1])]
+        cls8 = [c for c in prog.fns.values() if c.get('parent') == fa['path'] and c['kind'] == 'Closure']
+        if outs8 and len(fe) == len(outs8) and all(re.fullmatch(r'call:slice::iter\(self\.round\.probes\)', vshow(c[7][0])) and vshow(c[7][1]).startswith('closure:') for c in fe) and len(cls8) == 1:
+            st8c = St()
+            co = e8.run(cls8[0], [e8.sym_ref(st8c, 'env'), ('sym', 'p1')], st8c)
+            good8 = bool(co)
+            for o in co:
+                ups = [c for c in user_calls(o) if re.search(r'StateUpdater.*::update_for_probe$', c[1])]
+                if o.kind != 'return' or len(ups) != 1 or vshow(ups[0][7][1]) != 'p1' or not re.fullmatch(r'env\.\d+', vshow(ups[0][7][0])):
+                    good8 = False
+            if good8:
+                n_upd = len(co)
+            else:
+                why8 = 'the for_each closure does not hand every element to update_for_probe exactly once'
     if ok8 and n_upd:
         chk.ok('R8', 'apply:all-probes', 'for probe in round.probes { update_for_probe(probe) } — no adaptor, every element once, in order')
         chk.ok('R8', 'apply:pairing', '%d fetch→aggregate pairs on the explored traces' % n_upd)
